@@ -255,6 +255,22 @@ pub fn run(prop: &str, path: &str) -> i32 {
         "session" | "eof" | "transcript_line" => {
             return replay_session(prop, path, &case);
         }
+        "pipelined" => {
+            return match super::pipe::replay(prop, &case) {
+                Ok(0) => {
+                    println!("{} replay {}: the recorded pipelined script was served without a detectable violation", prop, path);
+                    0
+                }
+                Ok(_) => {
+                    println!("VIOLATION property={} replay={}", prop, path);
+                    1
+                }
+                Err(e) => {
+                    println!("INCONCLUSIVE {}", e);
+                    2
+                }
+            };
+        }
         _ => supported = false,
     }
     if !supported {
